@@ -189,6 +189,9 @@ func (t *builderTarget) observe(universe []string, selected []string) (o setObs)
 	o.Result = fmtResult(res)
 	o.Exist = fmtBools(t.rb.IsExist(universe))
 	o.N = len(t.rb.Kc.RuleEntities)
+	if o.N == 0 && o.Trace == "" {
+		o.ExecErr = false // whether executing an EMPTY set is an error is not this property's subject
+	}
 	return
 }
 
@@ -246,6 +249,9 @@ func (t *poolTarget) observe(universe []string, selected []string) (o setObs) {
 	o = first
 	o.Exist = fmtBools(t.p.IsExist(universe))
 	o.N = t.p.GetRulesNumber()
+	if o.N == 0 && o.Trace == "" {
+		o.ExecErr = false
+	}
 	sal := make([]string, len(universe))
 	for i, n := range universe {
 		if s, e := t.p.GetRuleSalience(n); e == nil {
@@ -450,9 +456,64 @@ func Run(k *fw.Case) {
 	if k.Replay {
 		fmt.Printf("C10 case %d: class=%s how=%q text=%q\n", k.Index, t.Class, t.How, t.S)
 	}
+	// "in any state of the builder/pool": three cases in eight start from a state that earlier management
+	// calls produced - a rule removed, everything removed / cleared, a rule replaced incrementally
+	origNames := g.Known.Names()
+	loadText := g.Known.Text
+	var prepB func(rb *builder.RuleBuilder) error
+	var prepP func(p *engine.GenginePool) error
+	state := "preloaded"
+	if len(g.sals) > 0 {
+		switch k.Index % 8 {
+		case 2:
+			state = "one-rule-removed"
+			pr := ByPriority(g.Known.Rules)
+			victim := pr[k.Index/8%2].Name // the first or the middle rule: rules behind it move up
+			var rest []RRule
+			for _, ru := range g.Known.Rules {
+				if ru.Name != victim {
+					rest = append(rest, ru)
+				}
+			}
+			g.Known = &Known{Rules: rest, Text: loadText}
+			prepB = func(rb *builder.RuleBuilder) error { return rb.RemoveRules([]string{victim}) }
+			prepP = func(p *engine.GenginePool) error { return p.RemoveRules([]string{victim}) }
+		case 5:
+			state = "emptied"
+			all := g.Known.Names()
+			g.Known = &Known{Text: loadText}
+			prepB = func(rb *builder.RuleBuilder) error { return rb.RemoveRules(all) }
+			if k.Index/8%2 == 0 {
+				state = "cleared"
+				prepP = func(p *engine.GenginePool) error { p.ClearPoolRules(); return nil }
+			} else {
+				prepP = func(p *engine.GenginePool) error { return p.RemoveRules(all) }
+			}
+		case 7:
+			state = "one-rule-replaced"
+			pr := ByPriority(g.Known.Rules)
+			old := pr[len(pr)-1-k.Index/8%2]
+			nr := RRule{Name: old.Name, Sal: old.Sal, Version: g.nextVer()}
+			if k.Index/16%2 == 0 {
+				nr.Sal = g.nextSal()
+			}
+			txt := g.runnableRuleText(nr, false)
+			var rules []RRule
+			for _, ru := range g.Known.Rules {
+				if ru.Name == old.Name {
+					ru = nr
+				}
+				rules = append(rules, ru)
+			}
+			g.Known = &Known{Rules: rules, Text: loadText}
+			prepB = func(rb *builder.RuleBuilder) error { return rb.BuildRuleWithIncremental(txt) }
+			prepP = func(p *engine.GenginePool) error { return p.UpdatePooledRulesIncremental(txt) }
+		}
+	}
+	k.Count("prior_state_"+state, 1)
 	kn := g.Known
 	r := &runner{k: k, g: g, t: t}
-	r.universe = distinctNames(append(append(append([]string{}, kn.Names()...), t.Names...), "no_such_rule"))
+	r.universe = distinctNames(append(append(append(append([]string{}, origNames...), kn.Names()...), t.Names...), "no_such_rule"))
 
 	cls := t.Class
 	k.Count("texts_"+cls, 1)
@@ -467,10 +528,16 @@ func Run(k *fw.Case) {
 
 	// preloaded builders and pools; the known set must behave as modelled, otherwise no verdict
 	preB := func() *builderTarget {
-		bt, err := newBuilderTarget(kn.Text)
+		bt, err := newBuilderTarget(loadText)
 		if err != nil {
 			k.Inconclusive("the known set does not compile: " + trunc(err.Error(), 200))
 			return nil
+		}
+		if prepB != nil {
+			if o := guard(func() error { return prepB(bt.rb) }); !o.accepted {
+				k.Inconclusive("the prior state (" + state + ") could not be set up on a builder (C08's subject): " + o.panicVal)
+				return nil
+			}
 		}
 		if s0 := bt.observe(r.universe, nil); s0 != wantKnown {
 			k.Inconclusive("a builder pre-loaded with the known set does not behave as modelled: " + s0.String() + " want " + wantKnown.String())
@@ -479,10 +546,16 @@ func Run(k *fw.Case) {
 		return bt
 	}
 	preP := func() *poolTarget {
-		pt, o := newPool(kn.Text)
+		pt, o := newPool(loadText)
 		if !o.accepted || pt.p == nil {
 			k.Inconclusive("no pool for the known set: " + o.panicVal)
 			return nil
+		}
+		if prepP != nil {
+			if o := guard(func() error { return prepP(pt.p) }); !o.accepted {
+				k.Inconclusive("the prior state (" + state + ") could not be set up on a pool (C16's subject): " + o.panicVal)
+				return nil
+			}
 		}
 		if s0 := pt.observe(r.universe, nil); s0 != wantKnownPool {
 			k.Inconclusive("a pool pre-loaded with the known set does not behave as modelled: " + s0.String() + " want " + wantKnownPool.String())
